@@ -12,6 +12,7 @@ struct World {
     cache_dir: Seq<char>,                  // ghost constant: the directory INV_CACHE speaks about
     targets: Set<Seq<char>>,               // ghost constant: declared target paths of the rules in scope
     execs: Seq<Seq<Seq<char>>>,            // command scripts executed so far (one entry per execute_command)
+    faults: nat,                           // how many mutating System primitives have FAILED so far (tracked by prelude/system_state.rs only)
 }
 
 // SHA-256 as an uninterpreted function (collision freedom is NOT assumed anywhere;
